@@ -767,6 +767,8 @@ class Engine:
             st.heap[ident] = VSeq(t, "ilist")
         else:
             st.heap[ident] = VList(mk_vsq([box(self.deref(st, v)) for v in vals]), "any")
+        if not isinstance(st.heap[ident], dict):
+            st.heap[ident].static_items = [self.deref(st, v) for v in vals]    # literal contents, valid until the list is mutated
         return VRef(ident, "list")
 
     def ev_Compare(self, e, st):
@@ -839,6 +841,10 @@ class Engine:
                         alts.append(IS.eq(it.t, lit_seq(sub, c.kind).t))
                 return z3.Or(*alts)
             raise Unsupported(f"`in` on {c!r} with {it!r}")
+        if isinstance(c, (VList, VSeq)) and getattr(c, "static_items", None) is not None:
+            if not c.static_items:
+                return z3.BoolVal(False)
+            return z3.Or(*[self.eq_vals(st, item, x) for x in c.static_items])
         if isinstance(c, VList):
             j = fresh("j", I)
             bi = box(self.deref(st, item))
@@ -1066,7 +1072,7 @@ class Engine:
             if not self.spec_mode:
                 self.implicit_error(st, z3.Not(v.isnone), "AttributeError", node, "attribute-of-None")
             return self.getattr_(st, v.value, attr, node)
-        if isinstance(v, VRecord):
+        if isinstance(v, VRecord) and not (v.cls == "cenum" and attr == "name"):
             if attr in v.fields:
                 return v.fields[attr]
             return VConst((v, attr), "boundmethod")
@@ -1321,6 +1327,12 @@ class Engine:
             n = len(e.keys)
             for k, v in zip(vals[:n], vals[n:]):
                 dict_set(self, s, ref, s.heap[ref.ident], k, v)
+            keys = [self.deref(s, k) for k in vals[:n]]
+            if all((isinstance(k, VInt) and z3.is_int_value(k.t)) or (isinstance(k, VSeq) and k.py is not None) for k in keys) \
+                    and len({(k.t.as_long() if isinstance(k, VInt) else k.py) for k in keys}) == len(keys):
+                cell = dict(s.heap[ref.ident])
+                cell["static"] = list(zip(keys, [self.deref(s, v) for v in vals[n:]]))   # literal distinct keys
+                s.heap[ref.ident] = cell
             outs.append((s, ref))
         return outs
 
